@@ -80,6 +80,18 @@ std::string run_case(Src& s, CaseInfo& ci)
   if (with_inc)
     ys_compiler_set_includes(c, (int) names.size(), names.data(), contents.data());
 
+  // the name a file / fd source is reported under; relative include paths are resolved against its
+  // directory part (bits 6-7 of the option byte: default name, a path, a very long path)
+  {
+    static std::string deep;
+    if (deep.empty())
+    {
+      for (int i = 0; i < 90; i++) deep += "directory/";
+      deep += "rules.yar";
+    }
+    int shape = opt >> 6;
+    ys_set_source_name(shape == 0 ? "" : shape == 1 ? "rules/main.yar" : shape == 2 ? deep.c_str() : "/abs/dir/main.yar");
+  }
   int nerr = ys_compiler_add(c, how, text.c_str(), how == YS_ADD_STRING ? strlen(text.c_str()) : text.size(), (opt & 32) ? "ns" : nullptr);
   int ncb = ys_compiler_error_callbacks(c), bad = ys_compiler_bad_callbacks(c), fe = ys_compiler_first_error(c);
   std::string diag = ys_compiler_diag(c);
